@@ -49,6 +49,18 @@ def plan(seed, subbatch):
         if cfg.random() < 0.15:
             tfs.append(world.day_shifted(a, cfg.randint(1, 2)))   # a span differing from a's by whole days
     members = sample_members(cfg, cfg.randint(1, 4), tfs, max_period=8)
+    pr = sub_rng(seed, "pair")
+    if pr.random() < 0.12:
+        # a pair of members whose names / helper names are as close as legal names get (a composite next to an
+        # indicator of its helper's class with the same period, suffixes, prefixes): C13's adversarial pairs
+        from .c13 import adversarial_pair
+
+        a, b, _rel = adversarial_pair(pr, None)
+        t = pr.choice(tfs)
+        if t:
+            a["common"]["timeframe"] = t
+            b["common"]["timeframe"] = t
+        members = [a, b] if pr.random() < 0.5 else [b, a]
     if level_tf:
         # settings bake the inherited Hexital-level timeframe into the name on a rebuild ("EMA_5" comes
         # back as "EMA_5_T5"): two members that differ only by an explicit vs inherited level timeframe
